@@ -282,17 +282,22 @@ def _build_call(case):
         def g(z):
             return np.sin(z) / z
         entry, p = case['entry'], case['path']
+        o = dict(case.get('opts') or {})
         if entry == 'Limit':
-            return lambda: Limit(g, path=p)(0.0)
+            return lambda: Limit(g, path=p, **o)(0.0)
         if entry == 'Limit-step':
-            return lambda: Limit(g, step=0.1, path=p, full_output=True)(0.0)
+            return lambda: Limit(g, step=0.1, path=p, full_output=True, **o)(0.0)
         if entry == 'Residue':
-            return lambda: Residue(lambda z: 1.0 / z, path=p)(0.0)
+            return lambda: Residue(lambda z: 1.0 / z, path=p, **o)(0.0)
         if entry == 'CStepGenerator':
-            return lambda: list(CStepGenerator(path=p)(0.0))
+            return lambda: list(CStepGenerator(path=p, **o)(0.0))
         if entry == 'Limit-generator':
-            return lambda: Limit(g, step=CStepGenerator(path=p, dtheta=np.pi / 3))(0.0)
+            return lambda: Limit(g, step=CStepGenerator(path=p, **dict(dict(dtheta=np.pi / 3), **o)))(0.0)
     raise fw.HarnessError('unknown case kind %r' % (case,))
+
+
+PATH_COMPANIONS = [dict(dtheta=0), dict(dtheta=0.0), dict(dtheta=-0.2), dict(step_ratio=2.0), dict(num_steps=3),
+                   dict(dtheta=0, step_ratio=2.0, num_steps=3)]
 
 
 def warm_up():
@@ -615,6 +620,10 @@ def enumerate_cases(ctx):
     for entry in ('Limit', 'Limit-step', 'Residue', 'CStepGenerator', 'Limit-generator'):
         for p in BAD_PATHS:
             cases.append(dict(kind='path', entry=entry, path=p))
+        # an unknown path stays an error whatever legitimate path options accompany it
+        for p in BAD_PATHS[:3]:
+            for o in PATH_COMPANIONS:
+                cases.append(dict(kind='path', entry=entry, path=p, opts=o))
     return cases
 
 
